@@ -10,7 +10,8 @@
 From Coq Require Import List ZArith NArith Bool Arith.
 From BBS Require Import Common.Sx Common.ListX
   Compose.Caching Compose.CachingProofs
-  Compose.ExistenceCache Compose.ExistenceCacheProofs.
+  Compose.ExistenceCache Compose.ExistenceCacheProofs
+  Compose.Replicators Compose.ReplicatorsProofs.
 Import ListNotations.
 Open Scope Z_scope.
 
@@ -132,3 +133,45 @@ Theorem lru_evicts_front : forall s v r, lru_ok s -> lq s = v :: r ->
   lru_peek s = Some v /\ lru_ok (lru_remove s) /\ lq (lru_remove s) = r.
 Proof. exact lru_remove_spec. Qed.
 Print Assumptions lru_evicts_front.
+
+(** ** Replicator decorators (Compose/Replicators.v): a transition system over
+    any number of callers of ReplicateMultiple with arbitrary (overlapping)
+    digest sets; a trace is any sequence of atomic steps - caller starts,
+    lock-protected sections of the decorator, backend calls returning with an
+    arbitrary injected fault, context cancellations, clock advances.  [run]
+    accepts exactly the traces whose steps are enabled, so the theorems hold
+    for all interleavings at that granularity. *)
+
+(** Deduplicating: never more than one concurrent copy of the same key. *)
+Theorem dedup_at_most_one_copy_per_key : forall sets source sink tr s,
+  run MDedup (init_state sets source sink) tr = Some s -> forall k, (copies_of k s <= 1)%nat.
+Proof. exact dedup_one_copy_per_key. Qed.
+Print Assumptions dedup_at_most_one_copy_per_key.
+
+(** Concurrency-limiting with a semaphore of k permits: never more than k. *)
+Theorem limit_at_most_k : forall k sets source sink tr s,
+  run (MLimit k) (init_state sets source sink) tr = Some s -> (copies s <= k)%nat.
+Proof. exact limit_at_most_k_copies. Qed.
+Print Assumptions limit_at_most_k.
+
+(** Queued (one token): never more than one. *)
+Theorem queued_at_most_one : forall size dur sets source sink tr s,
+  run (MQueued size dur) (init_state sets source sink) tr = Some s -> (copies s <= 1)%nat.
+Proof. exact queued_at_most_one_copy. Qed.
+Print Assumptions queued_at_most_one.
+
+(** Non-vacuity: two callers for key 0; the second waits while the first
+    copies (one copy in progress); the first fails in sink.Put, the waiter
+    retries, becomes the leader and copies itself. *)
+Example dedup_example :
+  let tr := [EStart 0; ETau 0 false; EStart 1; ETau 1 false; ERel 0 0; ERel 0 0] in
+  (match run MDedup (init_state [[0%nat]; [0%nat]] [0%nat] []) tr with
+   | Some s => (copies_of 0 s, map tpc (thr s))
+   | None => (7%nat, [])
+   end) = (1%nat, [Put 0 0 [] 0; Wait 0 0]) /\
+  (match run MDedup (init_state [[0%nat]; [0%nat]] [0%nat] [])
+             (tr ++ [ERel 0 14; ETau 0 false; ETau 0 false; ETau 1 false; ETau 1 false; ERel 1 0]) with
+   | Some s => (copies_of 0 s, map tpc (thr s))
+   | None => (7%nat, [])
+   end) = (1%nat, [Done 14; Get 0 [] 1]).
+Proof. vm_compute. split; reflexivity. Qed.
